@@ -69,4 +69,14 @@ var props = map[string]*Prop{
 			{Name: "mountpoints", Pkg: "internal/sandbox", Test: "TestVerifC14MountPoints", Shards: sh(4, 4)},
 		},
 	},
+	"C08": {
+		Level: "exploration",
+		Rule: "full product: 864 function topologies (6 call profiles x 4 block counts x 3 loop counts x 4 entropies x 3 literal sets; quick: every 3rd) x one database holding 23328 signatures (4 anchors x entropy{0,4,8} x tolerance{0,.5,8} x required calls{none,substring,two,absent} x patterns{none,all present,one absent} x node count x loop depth x topology hash{match,other} x fuzzy hash{match,other,none}) x thresholds {0.01,0.5,0.75,0.99,1.0} x scanner tolerances {0,0.5,2}, both back ends, full and exact mode; plus every signature SET of size <=2 from a 96-signature pool in fresh databases x 4 probe topologies x 11 thresholds. Non-trivial = a scan that returned >= 2 alerts (product unit) / >= 1 alert (set unit).",
+		Assumptions: []string{"'required call occurs' is read as the implementation's substring match (the weaker reading)", "the JSON scanner has no tolerance setter, so only its default 0.5 is explored there"},
+		Bounds:      map[string]string{"quick": "every 5th of 864 topologies + anchors; all 4657 signature sets", "thorough": "864 topologies; all 4657 signature sets"},
+		Units: []Unit{
+			{Name: "alerts", Pkg: "pkg/storage/pebbledb", Test: "TestVerifC08", Shards: sh(16, 16), TimeoutS: sh(900, 3000)},
+			{Name: "signature-sets", Pkg: "pkg/storage/pebbledb", Test: "TestVerifC08Pairs", Shards: sh(16, 16), TimeoutS: sh(900, 3000)},
+		},
+	},
 }
